@@ -104,10 +104,7 @@ def shape_report() -> List[Tuple[str, bool, str]]:
     models transcribe by hand (deliberately blunt: any edit of these functions is reported)."""
     rw = parse("game/agent/rewards.py")
     gm = parse("game/game.py")
-    sc = parse("game/science.py")
     fns: Dict[str, ast.FunctionDef] = {
-        "topological_sort": find_function(sc, "topological_sort"),
-        "graph_has_cycle": find_function(sc, "graph_has_cycle"),
         "rf_init": find_method(class_def(rw, "RewardFunction"), "__init__"),
         "register_component": find_method(class_def(rw, "RewardFunction"), "register_component"),
         "setup_reward_sharing": find_method(class_def(gm, "PrimaiteGame"), "setup_reward_sharing"),
@@ -153,6 +150,14 @@ def emit() -> str:
                      "self.step_counter > 0`?, operation on the agent looked up by `self.agents[agent_name]`) -/\n"
                      "def updateAgentsProgram : List (Bool × AOp) :=\n  ["
                      + ", ".join(f"({'true' if g else 'false'}, .{o})" for g, o in prog) + "]")
+    # `topological_sort` / `graph_has_cycle` (game/science.py), translated statement by statement (harness/extract/reward_graph.py)
+    from harness.extract.reward_graph import translate_graph_function
+    sc = parse("game/science.py")
+    graph_defs = []
+    for gname in ("topological_sort", "graph_has_cycle"):
+        graph_defs.append(f"/-- `{gname}(graph)` (game/science.py), translated from the source -/\n"
+                          f"def fn_{gname} : Primaite.RewardGraph.Lang.Fn :=\n  " + translate_graph_function(find_function(sc, gname)))
+    calc_defs += graph_defs
     # sticky defaults
     sticky = []
     for cname, _disc, cls in classes:
@@ -197,6 +202,7 @@ def emit() -> str:
     b = lambda x: "true" if x else "false"  # noqa: E731
     nl = "\n\n"
     return f"""import PrimaiteModel.Model.RewardCalcLang
+import PrimaiteModel.Model.RewardGraphLang
 namespace Primaite.Gen.Reward
 open Primaite.Reward
 
@@ -224,7 +230,5 @@ def agentRewardPlumbing : Bool := {b(shape_ok["update_reward"] and shape_ok["sav
 /-- `setup_reward_sharing`: one `set` per agent, every `SharedReward` component adds its `agent_name` and gets the callback reading
 `current_reward`; `graph_has_cycle` → `RuntimeError`; order = `topological_sort(graph)` -/
 def setupRewardSharingShape : Bool := {b(shape_ok["setup_reward_sharing"])}
-def topoSortIsPostOrder : Bool := {b(shape_ok["topological_sort"])}
-def cycleSearchShape : Bool := {b(shape_ok["graph_has_cycle"])}
 end Primaite.Gen.Reward
 """
